@@ -42,6 +42,9 @@ func stringFamily(name string, alpha []byte, minLen, maxLen int) *family {
 		li := sort.Search(len(cum)-1, func(k int) bool { return cum[k+1] > i })
 		l := minLen + li
 		i -= cum[li]
+		if buf == nil {
+			buf = make([]byte, 0, 8)
+		}
 		buf = buf[:0]
 		for k := 0; k < l; k++ {
 			buf = append(buf, 0)
@@ -107,7 +110,7 @@ func buildFamilies(thorough bool) {
 
 	f = stringFamily("bytes3 (all 256 values)", allBytes(), 3, 3)
 	if thorough {
-		f.groups = []group{{0, f.size, core, "core entries"}}
+		f.groups = []group{{0, f.size, wide, "every decoder, contiguous reader"}}
 	} else {
 		f.groups = []group{{0, f.size, b3, "byte-level decoders"}}
 	}
@@ -165,7 +168,7 @@ func buildFamilies(thorough bool) {
 	mf.get = func(i int64, buf []byte) []byte {
 		c := mut1[i]
 		if c.ed.desc == "unmutated" {
-			return append(buf[:0], seeds[c.seed].data...)
+			return append(make([]byte, 0, len(seeds[c.seed].data)), seeds[c.seed].data...)
 		}
 		return applyEdit(seeds[c.seed].data, c.ed)
 	}
